@@ -10,7 +10,7 @@ from ..rules.leftrec import rule_all_small_graphs, rule_left_call_table, rule_nu
 
 LEVEL = 'other'
 TECHNIQUE = ('static: interpretation of the nullable methods, of the left-call analysis and of the SCC/leader marking on '
-             'stand-in model trees - exhaustive over all rule graphs with up to 3 rules - against the table read off the parse '
+             'stand-in model trees - exhaustive over all rule graphs with up to 3 rules and all expression terms of depth <= 2 - against the table read off the parse '
              'primitives and a graph oracle (every cycle has a marked rule), guarded-marking and error-condition path rules, R-CHAIN')
 LEVEL_TEXT = ('Decides from the source: class identity of the model classes is nominal (R-CHAIN); is_nullable() of every '
               'expression class and the left-call extraction of the analysis agree with the documented table on a complete set '
